@@ -233,10 +233,29 @@ def tickWhyB (c : Cfg) (st : StB) : String :=
   let g := (List.range c.n).filter fun j => 0 < j && st.a.ph j == .queued && !st.a.creq j && slotFree c st.a (c.parent j)
   if !g.isEmpty then "eager" else "urgent"
 
+def evTag : EvB → String
+  | .cancelArrive _ => "CA" | .react _ => "R" | .timeoutFire _ => "TF" | .tidyReturn _ _ => "TR" | .hStep _ => "HS"
+  | .hCancelArrive _ => "HX" | .sdWaitReturn _ _ => "SW" | .sdTimeoutFire _ => "ST" | .sdTidyReturn _ _ => "SY"
+  | _ => "-"
+
+def exTag : Exit → String
+  | .success => "S" | .critical => "C" | .timeout => "T" | .cancelled => "X"
+
+def whoTag : Who → String
+  | .inline => "i" | .relay => "r"
+
+def pcTag : PcB → String
+  | .notBegun => "n" | .loop => "loop" | .tidy x => "tidy" ++ exTag x | .shut x => "shut" ++ exTag x
+  | .shutTidy x => "shtd" ++ exTag x | .over => "over"
+
+def bcTag : Bc → String
+  | .bnone => "" | .bwait w => "/w" ++ whoTag w | .btidy w => "/t" ++ whoTag w | .bover => "/o"
+
 def replayB (c : Cfg) (evs : List ObsB) (diag : List (Nat × Bool × Bool)) : String := Id.run do
   let mut st := StB.init
   let mut i := 0
   let mut diffs : Array String := #[]
+  let mut cov : Array String := #[]
   let rng := List.range c.n
   for o in evs do
     if diffs.size ≥ 6 then break
@@ -340,13 +359,21 @@ def replayB (c : Cfg) (evs : List ObsB) (diag : List (Nat × Bool × Bool)) : St
         if m != v then diffs := diffs.push s!"{i} sdvalue event={repr o.ev} observed={v} model={m}"
       | none => pure ()
       if st'.a.dbl then diffs := diffs.push s!"{i} start a task was created twice"
+      -- which branch of the model the event took: phase of the scheduler concerned before > after
+      match o.ev with
+      | .cancelArrive s | .react s | .timeoutFire s | .tidyReturn s _ | .hStep s | .hCancelArrive s
+      | .sdWaitReturn s _ | .sdTimeoutFire s | .sdTidyReturn s _ =>
+        if st.pcB s != st'.pcB s || st.bc s != st'.bc s then
+          cov := cov.push s!"{evTag o.ev}:{pcTag (st.pcB s)}{bcTag (st.bc s)}>{pcTag (st'.pcB s)}{bcTag (st'.bc s)}"
+      | _ => pure ()
       st := st2
     i := i + 1
   -- diagnosis after the run: failed_time_out() / failed_critical() of every scheduler that ended
   for (s, ft, fc) in diag do
     if st.pcB s == .over && (st.failT s != ft || st.failC s != fc) then
       diffs := diffs.push s!"{i} diag scheduler {s} observed=({ft},{fc}) model=({st.failT s},{st.failC s})"
-  if diffs.isEmpty then return s!"ok {i}"
+  let covs := ",".intercalate cov.toList
+  if diffs.isEmpty then return s!"ok {i} cov={covs}"
   return s!"diff {i} | " ++ " | ".intercalate diffs.toList
 
 def parseDiag (s : String) : Option (List (Nat × Bool × Bool)) :=
